@@ -3,6 +3,7 @@
   correspondence run).
 -/
 import AxVerif.Model.Regs
+import AxVerif.Model.Instr
 namespace Ax
 
 def hexDigit? (c : Char) : Option Nat :=
@@ -91,5 +92,55 @@ def optName (n : Option String) : String :=
   | none => "~"
 
 def parseName (s : String) : Option String := if s = "~" then none else some s
+
+end Ax
+
+namespace Ax
+
+def parseRegSpec (s : String) : RegSpec :=
+  if s = "-" then .none else
+  match parseReg? s with
+  | some r => .reg r
+  | none => .unsupported
+
+def parseSegSpec (s : String) : SegSpec :=
+  match s with
+  | "-" => .none | "ES" => .es | "CS" => .cs | "SS" => .ss | "DS" => .ds | "FS" => .fs | "GS" => .gs
+  | _ => .other
+
+def parseOpSpec (s : String) : Option OpSpec :=
+  match s.splitOn ":" with
+  | ["m"] => some .mem
+  | ["o"] => some .other
+  | ["r", r] => some (.reg (parseRegSpec r))
+  | ["i", sz, v] => do
+    let sz ← sz.toNat?
+    let v ← parseHex? v
+    pure (.imm sz (BitVec.ofNat 64 v))
+  | _ => none
+
+def kvGet (kvs : List (String × String)) (k : String) : Option String := (kvs.find? (·.1 == k)).map (·.2)
+
+/-- parse the key=value payload of a `dec` line -/
+def parseInstr (toks : List String) : Option Instr := do
+  let kvs := toks.filterMap fun t =>
+    match t.splitOn "=" with
+    | [k, v] => some (k, v)
+    | _ => none
+  let code ← kvGet kvs "code"
+  let mn ← kvGet kvs "mn"
+  let len ← (← kvGet kvs "len").toNat?
+  let next ← parseHex? (← kvGet kvs "next")
+  let nb ← parseHex? (← kvGet kvs "nb")
+  let nb64 ← kvGet kvs "nb64"
+  let opsS ← kvGet kvs "ops"
+  let ops ← if opsS = "-" then some [] else (opsS.splitOn ",").mapM parseOpSpec
+  let scale ← (← kvGet kvs "scale").toNat?
+  let disp ← parseHex? (← kvGet kvs "disp")
+  pure {
+    code := code, mnem := mn, len := len, nextIp := BitVec.ofNat 64 next, ops := ops,
+    base := parseRegSpec (← kvGet kvs "base"), index := parseRegSpec (← kvGet kvs "index"),
+    scale := scale, disp := BitVec.ofNat 64 disp, seg := parseSegSpec (← kvGet kvs "seg"),
+    nearBranch := BitVec.ofNat 64 nb, op0NearBranch64 := nb64 == "1" }
 
 end Ax
